@@ -42,7 +42,7 @@ FIXED5 = K.FIXED5      # VERIF_C05_FIXED_F5 (default 1, fix 4b4f5c6 is in /repo)
 F5 = "C05-F5"
 FIXED7 = K.FIXED7      # VERIF_C05_FIXED_F7 (default 1: fix commit f2636f2 is in /repo)
 F7 = "C05-F7"     # merged MediaWiki save: a library node rooted in a tree without extensionAllowed reloads under a wrong parent
-F8 = "C05-F8"     # a TSV location named *.TSV / *.Tsv cannot be loaded back
+F8 = "C05-F8"     # repaired by b5f4533: before it a TSV location named *.TSV / *.Tsv could not be loaded back
 F6 = "C05-F6"     # a name holding a tab or line feed (allowedCharacter=tab/newline): no TSV cell / MediaWiki line can hold it
 WIKI_RESERVED = ("<nowiki>", "</nowiki>") if FIXED else ("extend here", "<nowiki>", "</nowiki>")
 
@@ -1008,7 +1008,7 @@ def _corpus():
                                {"tag": "unit", "name": "nan", "desc": "NA", "attrs": []}]}},
         {"op": "add", "kind": "witness", "sec": "valueClassDefinitions", "path": [], "at": None,
          "elem": {"tag": "valueClassDefinition", "name": "zzcellClass", "desc": "n/a", "attrs": []}}]})
-    # C05-F8: a TSV location named *.TSV
+    # regression for the repaired C05-F8 (b5f4533): a TSV location named *.TSV
     cs.append({"kind": "bundled", "schema": "HED8.0.0.xml", "tsv_loc": "x.TSV", "expect_fid": F8})
     # C05-F6: a unit whose name holds a tab, admitted through allowedCharacter=tab
     cs.append({"kind": "edit", "schema": "HED8.3.0.xml", "base": "merged", "files": False, "expect_fid": F6, "ops": [
